@@ -362,6 +362,7 @@ func partBC(r *mc.Run, only string) {
 	items = append(items, genFloatItems()...)
 	items = append(items, genConvItems(convTypes)...)
 	items = append(items, genWideItems(r.Thorough())...)
+	items = append(items, genRoundTripItems()...)
 	if f := os.Getenv("C15_GROUPS"); f != "" {
 		// debugging aid: restrict parts (b)/(c) to the groups whose name contains the substring
 		var sel []bitem
